@@ -45,6 +45,49 @@ func TestVerifHarness(t *testing.T) {
 		}
 		return o
 	}
+	// viaFlags hands the values to the flag objects of the real `query` command (pflag's Set, as a
+	// command line would) and reads back what the command's RunE would pass to the parsers.
+	viaFlags := func(start, end, since, step *string) (st, en lokiapi.OptLokiTime, si, sp lokiapi.OptPrometheusDuration, ok bool) {
+		fs := queryCmd(nil).Flags()
+		for name, v := range map[string]*string{"start": start, "end": end, "since": since, "step": step} {
+			if v != nil {
+				if err := fs.Set(name, *v); err != nil {
+					return st, en, si, sp, false
+				}
+			}
+		}
+		tf := func(name string) (lokiapi.OptLokiTime, bool) {
+			f := fs.Lookup(name)
+			if f == nil {
+				return lokiapi.OptLokiTime{}, false
+			}
+			v, ok := f.Value.(*APIFlag[*lokiapi.OptLokiTime, lokiapi.LokiTime])
+			if !ok {
+				return lokiapi.OptLokiTime{}, false
+			}
+			return *v.Val, true
+		}
+		df := func(name string) (lokiapi.OptPrometheusDuration, bool) {
+			f := fs.Lookup(name)
+			if f == nil {
+				return lokiapi.OptPrometheusDuration{}, false
+			}
+			v, ok := f.Value.(*APIFlag[*lokiapi.OptPrometheusDuration, lokiapi.PrometheusDuration])
+			if !ok {
+				return lokiapi.OptPrometheusDuration{}, false
+			}
+			return *v.Val, true
+		}
+		var o1, o2, o3, o4 bool
+		st, o1 = tf("start")
+		en, o2 = tf("end")
+		si, o3 = df("since")
+		sp, o4 = df("step")
+		if o1 && o2 && o3 && o4 {
+			props.CmdViaFlags.Store(true)
+		}
+		return st, en, si, sp, o1 && o2 && o3 && o4
+	}
 	props.Cmd = &props.CmdHooks{
 		Render: func(timestamp, container, color bool, data any) ([]byte, error) {
 			var buf bytes.Buffer
@@ -52,9 +95,15 @@ func TestVerifHarness(t *testing.T) {
 			return buf.Bytes(), err
 		},
 		TimeRange: func(now time.Time, start, end, since *string) (time.Time, time.Time, error) {
+			if st, en, si, _, ok := viaFlags(start, end, since, nil); ok {
+				return parseTimeRange(now, st, en, si)
+			}
 			return parseTimeRange(now, optTime(start), optTime(end), optDur(since))
 		},
 		Step: func(step *string, start, end time.Time) (time.Duration, error) {
+			if _, _, _, sp, ok := viaFlags(nil, nil, nil, step); ok {
+				return parseStep(sp, start, end)
+			}
 			return parseStep(optDur(step), start, end)
 		},
 		Timestamp: func(value string, def time.Time) (time.Time, error) {
